@@ -95,8 +95,7 @@ class MesageSwitchSimpleOpWriteHandler(AbstractWriteHandler):
         next_op: SsbOperation = next_handler.start_vertex["op"]
         assert self.op_name is not None
         if next_op.op_code.name not in OPS_SWITCH_TEXT_CASE_MAP[self.op_name]:
-            if not self.have_written_at_least_one_child:
-                raise ValueError("A message_Switch* must have at least one case or default.")
+            # A message_Switch* without any case or default is written (and compiled) as an empty block.
             return False
         self.have_written_at_least_one_child = True
         return True
